@@ -695,6 +695,24 @@ def inline_calls(F, fn, want=None, depth=2, max_blocks=1500):
             fnitems = {(o.const.get("fn_resolved") or o.const["fn"]) for o in prov_c if o.kind == "const" and "fn" in o.const}
             others = [o for o in prov_c if not (o.kind == "agg" and "closure" in o.rv) and not (o.kind == "const" and "fn" in o.const)]
             is_item = False
+            if len(fnitems) == 1 and not clos and not others and next(iter(fnitems)) not in F.fns:
+                # a tuple-variant constructor handed over as a function value (`lower_binary_op(.., BuiltInOp::Add)`): the
+                # call builds that variant from the argument tuple
+                ctor = next(iter(fnitems))
+                adt_p, _, vname = ctor.rpartition("::")
+                adt_d = getattr(F, "adts", {}).get(adt_p)
+                var_d = next((v_ for v_ in (adt_d or {}).get("variants", []) if v_["name"] == vname), None) if adt_d else None
+                apl = op_place(t["args"][1])
+                if var_d is not None and apl is not None and t.get("t") is not None and all(fd_["name"].isdigit() for fd_ in var_d["fields"]):
+                    ops_ = [{"mv": {"l": apl["l"], "p": list(apl["p"]) + [["f", fd_["name"], "tuple", "", fd_["ty"]]]}} for fd_ in var_d["fields"]]
+                    tdefs = du_c.defs.get(apl["l"], []) if not apl["p"] else []
+                    if len(tdefs) == 1 and tdefs[0][0] == "stmt" and tdefs[0][3]["rv"]["k"] == "agg" and "tuple" in tdefs[0][3]["rv"] and len(tdefs[0][3]["rv"]["ops"]) == len(ops_):
+                        # the argument tuple was packed right here: its components are the operands
+                        ops_ = list(tdefs[0][3]["rv"]["ops"])
+                    b["s"].append({"lhs": t["dest"], "rv": {"k": "agg", "adt": adt_p, "variant": vname, "fields": [fd_["name"] for fd_ in var_d["fields"]], "ops": ops_},
+                                   "line": t.get("line"), "exp": t.get("exp", ""), "ctor_call": ctor})
+                    b["t"] = {"k": "goto", "t": t["t"], "line": t.get("line"), "exp": t.get("exp", "")}
+                    continue
             if len(fnitems) == 1 and not clos and not others and next(iter(fnitems)) in F.fns:
                 clos = set(fnitems)
                 is_item = True
